@@ -163,14 +163,16 @@ def rule_core(repo, rep):
             a, b = b, a
           if isinstance(a, ast.Constant) and isinstance(b, ast.BinOp) and \
                   isinstance(b.op, ast.Pow) and \
-                  isinstance(b.right, ast.Constant) and \
-                  isinstance(b.left, ast.Name):
-            k, p, var = a.value, b.right.value, b.left.id
+                  isinstance(b.right, ast.Constant):
+            k, p = a.value, b.right.value
+            var = b.left.id if isinstance(b.left, ast.Name) else b.left
         if k is None:
           rep.unknown(Rd, sup + '.fit', site(fs, found),
                       'unrecognised default %s' % ast.unparse(e))
         else:
           src = None
+          if not isinstance(var, str):
+            src, var = ast.unparse(var), '<inline>'
           for n in ast.walk(fs.node):
             if isinstance(n, ast.Assign) and \
                     isinstance(n.targets[0], ast.Name) and \
